@@ -688,6 +688,15 @@ def canonical_control(mod):
             cnt[0] += 1
             new = ast.Compare(left=node.values[0].left, ops=[ast.In()], comparators=[ast.Tuple(elts=consts, ctx=ast.Load())])
             return ast.copy_location(new, node)
+    class _DeMorgan(ast.NodeTransformer):
+        """not a and not b  ->  not (a or b) ;  not a or not b  ->  not (a and b)   (all operands negated)"""
+        def visit_BoolOp(self, node):
+            self.generic_visit(node)
+            if len(node.values) >= 2 and all(isinstance(v, ast.UnaryOp) and isinstance(v.op, ast.Not) for v in node.values):
+                inner = ast.BoolOp(op=ast.Or() if isinstance(node.op, ast.And) else ast.And(), values=[v.operand for v in node.values])
+                cnt[0] += 1
+                return ast.copy_location(ast.UnaryOp(op=ast.Not(), operand=ast.copy_location(inner, node)), node)
+            return node
     before = n
     tr = _OrForm()
     cnt = [0]
@@ -701,6 +710,7 @@ def canonical_control(mod):
     tr.visit_IfExp = counting
     tr.visit(mod.tree)
     _InForm().visit(mod.tree)
+    _DeMorgan().visit(mod.tree)
     n += cnt[0]
     if n:
         set_parents(mod.tree)
